@@ -16,7 +16,7 @@ ASSUME = [
 def run(ctx):
     from mirsym import spec_iter, spec_packet
     tier = ctx["tier"]
-    obls, samples = mlane.run_scenarios("C03", "O03", spec_packet.scenarios(tier) + spec_iter.scenarios(tier)[:1], ctx, "one packet, any bytes; data streams <= 9 B; device <= 3 pages")
+    obls, samples = mlane.run_scenarios("C03", "O03", spec_packet.scenarios(tier) + spec_iter.scenarios(tier)[:1] + spec_iter.const_scenarios(tier)[:1], ctx, "one packet, any bytes; data streams <= 9 B; device <= 3 pages")
     obls += kp.run_k("C03", "c03", kp.F_HDR, kp.hdr_read_specs(tier), ctx)
     return dict(obligations=obls, functions=FUNCTIONS, assumptions=ASSUME, samples=samples,
                 extra={"engine": "mirsym (MIR -> z3 5.1) + Kani 0.68", "mir_regenerated_from": "/repo working tree"})
